@@ -13,6 +13,7 @@ import (
 	"go/token"
 	"go/types"
 	"math/bits"
+	"sort"
 	"strings"
 
 	"golang.org/x/tools/go/ssa"
@@ -27,7 +28,8 @@ func init() {
 			"R3: kingMoves/knightMoves (as read by KingMoves/KnightMoves) equal the offset-with-file-wrap definition on all 64 squares. " +
 			"R4: the fill of each slider table is recognised (one store, carry-rippler over the mask, all 64 squares, value = calc<Piece>Attacks(sq, occ) of the same piece and occupancy); replaying that fill on the literals with the reference walker standing in for calc*Attacks and then the recognised lookup returns the geometric set for every subset. " +
 			"R5: every read of attacks.InBetween outside package attacks has both end squares and-ed off before it is used as a square set. " +
-			"Not decided: correctness of calcBishopAttacks/calcRookAttacks, PawnCaptureMoves/PawnSinglePushMoves and initInBetween (code, not data).",
+			"R7: the fill of InBetween is decided for the recognised coordinate-walk form: four nested full-range loops over file/rank of A and B (or two over the squares) left only by their tests, every iteration storing to InBetween[sq(A)][sq(B)]; which store executes is selected by fileA==fileB, rankA==rankB, |dFile|==|dRank| only, the non-empty store exactly for aligned pairs; the stored set is the accumulation of 1<<(rank*8+file) over a walk from A by (Signum(dFile), Signum(dRank)) while != B, plus the bit of B. Any other way of filling the table (index differences, slider lookups, order-dependent copies, extra skips) is undecided, never a violation. " +
+			"Not decided: correctness of calcBishopAttacks/calcRookAttacks and of the pawn shift expressions beyond their edge handling (code, not data); chess.Abs/chess.Signum are taken at their names.",
 		Assume: []string{
 			"square numbering is rank*8+file (anchored on chess.A1/H1/A8/H8 constants)",
 			"R4 only: calcBishopAttacks/calcRookAttacks compute the ray walk (not decided here)",
@@ -88,6 +90,7 @@ func runC12(c *Ctx) {
 	}
 	c.Floor("C12.R3", n3, 128, "leaper table cells compared with geometry")
 	c12R5(c, p)
+	c12R7(c, p)
 }
 
 // ---------------------------------------------------------------- geometry
@@ -263,6 +266,27 @@ func c12Res(x c12V, anyInt bool) c12V {
 				return x
 			}
 			x = c12V{x.env.args[i], x.env.up}
+		case *ssa.UnOp:
+			// s.f read back from a non-escaping local struct (a composite literal, or a by-value parameter go/ssa spills)
+			fa, isFA := t.X.(*ssa.FieldAddr)
+			if t.Op != token.MUL || !isFA {
+				return x
+			}
+			al, isAl := fa.X.(*ssa.Alloc)
+			if !isAl {
+				return x
+			}
+			v, ok := c12AllocField(al, fa.Field, t, x.env, 0)
+			if !ok {
+				return x
+			}
+			x = v
+		case *ssa.Field:
+			v, ok := c12StructField(c12V{t.X, x.env}, t.Field, 0)
+			if !ok {
+				return x
+			}
+			x = v
 		case *ssa.Call:
 			callee := t.Call.StaticCallee()
 			if t.Call.IsInvoke() || callee == nil || !isOwn(callee) || callee.Blocks == nil || len(t.Call.Args) != len(callee.Params) || len(callee.FreeVars) != 0 {
@@ -284,6 +308,82 @@ func c12Res(x c12V, anyInt bool) c12V {
 			return x
 		}
 	}
+}
+
+// c12StructField: field f of the struct value sv, when sv is a whole-struct load
+// of a non-escaping local whose field f has exactly one dominating source.
+func c12StructField(sv c12V, f int, depth int) (c12V, bool) {
+	sv = c12Res(sv, false)
+	if ld, ok := sv.v.(*ssa.UnOp); ok && ld.Op == token.MUL {
+		if al, ok := ld.X.(*ssa.Alloc); ok {
+			return c12AllocField(al, f, ld, sv.env, depth)
+		}
+	}
+	return sv, false
+}
+
+// c12AllocField: the value field f of local al holds at use: the value of the
+// single store to &al.f, or field f of the single whole-struct store to al;
+// the store must dominate use and al's address must not leave the function.
+func c12AllocField(al *ssa.Alloc, f int, use ssa.Instruction, env *c12Env, depth int) (c12V, bool) {
+	if al.Heap || depth > 4 || al.Referrers() == nil {
+		return c12V{}, false
+	}
+	var fieldStore, whole *ssa.Store
+	for _, r := range *al.Referrers() {
+		switch x := r.(type) {
+		case *ssa.DebugRef:
+		case *ssa.UnOp:
+			if x.Op != token.MUL {
+				return c12V{}, false
+			}
+		case *ssa.Store:
+			if x.Addr != ssa.Value(al) || whole != nil {
+				return c12V{}, false
+			}
+			whole = x
+		case *ssa.FieldAddr:
+			if x.Referrers() == nil {
+				return c12V{}, false
+			}
+			for _, r2 := range *x.Referrers() {
+				switch y := r2.(type) {
+				case *ssa.DebugRef:
+				case *ssa.UnOp:
+					if y.Op != token.MUL {
+						return c12V{}, false
+					}
+				case *ssa.Store:
+					if y.Addr != ssa.Value(x) {
+						return c12V{}, false
+					}
+					if x.Field == f {
+						if fieldStore != nil {
+							return c12V{}, false
+						}
+						fieldStore = y
+					}
+				default:
+					return c12V{}, false
+				}
+			}
+		default:
+			return c12V{}, false
+		}
+	}
+	if (fieldStore != nil) == (whole != nil) {
+		return c12V{}, false
+	}
+	if fieldStore != nil {
+		if fieldStore.Parent() != use.Parent() || !instrDominates(fieldStore, use) {
+			return c12V{}, false
+		}
+		return c12V{fieldStore.Val, env}, true
+	}
+	if whole.Parent() != use.Parent() || !instrDominates(whole, use) {
+		return c12V{}, false
+	}
+	return c12StructField(c12V{whole.Val, env}, f, depth+1)
 }
 
 // c12Bin: x resolves to a binary operation op; operands in x's context.
@@ -899,15 +999,52 @@ func c12SqLoop(row ssa.Value) (sq *ssa.Phi, latch *ssa.BasicBlock, bound int64) 
 // that jumps back to it, K0, N (-1 when no loop test is found) and whether the
 // test is made on the counter itself (loop header) rather than on i+1 (latch).
 func c12CountLoop(v0 ssa.Value) (sq *ssa.Phi, latch *ssa.BasicBlock, start, bound int64, headerTest bool) {
+	sq, latch, start, bound, headerTest, _ = c12CountLoopTest(v0)
+	return
+}
+
+// c12CountLoopTest is c12CountLoop, also returning the If that is the loop test:
+// the one at the bottom of the latch testing i+1 and jumping back to the header
+// on true (go/ssa's rotated range-over-int form), else the one at the bottom
+// of the header testing i. Comparisons of the counter elsewhere in the body are
+// not loop tests.
+func c12CountLoopTest(v0 ssa.Value) (sq *ssa.Phi, latch *ssa.BasicBlock, start, bound int64, headerTest bool, test *ssa.If) {
 	bound = -1
 	sq, ok := v0.(*ssa.Phi)
 	if !ok || len(sq.Edges) != 2 || len(sq.Block().Preds) != 2 {
-		return nil, nil, 0, -1, false
+		return nil, nil, 0, -1, false, nil
+	}
+	testOf := func(b *ssa.BasicBlock, v ssa.Value) (int64, *ssa.If) {
+		if len(b.Instrs) == 0 {
+			return -1, nil
+		}
+		iff, ok := b.Instrs[len(b.Instrs)-1].(*ssa.If)
+		if !ok {
+			return -1, nil
+		}
+		cmp, ok := iff.Cond.(*ssa.BinOp)
+		if !ok {
+			return -1, nil
+		}
+		// v < K, v != K, K > v  → K ;  v <= K, K >= v → K+1
+		kx, xc := constOf(cmp.X)
+		ky, yc := constOf(cmp.Y)
+		switch {
+		case cmp.X == v && yc && (cmp.Op == token.LSS || cmp.Op == token.NEQ):
+			return ky, iff
+		case cmp.X == v && yc && cmp.Op == token.LEQ:
+			return ky + 1, iff
+		case cmp.Y == v && xc && (cmp.Op == token.GTR || cmp.Op == token.NEQ):
+			return kx, iff
+		case cmp.Y == v && xc && cmp.Op == token.GEQ:
+			return kx + 1, iff
+		}
+		return -1, nil
 	}
 	for i, e := range sq.Edges {
 		inc, ok := e.(*ssa.BinOp)
 		k0, isC := constOf(sq.Edges[1-i])
-		if !ok || inc.Op != token.ADD || inc.X != ssa.Value(sq) || !isC || inc.Referrers() == nil || sq.Referrers() == nil {
+		if !ok || inc.Op != token.ADD || inc.X != ssa.Value(sq) || !isC {
 			continue
 		}
 		start = k0
@@ -915,46 +1052,14 @@ func c12CountLoop(v0 ssa.Value) (sq *ssa.Phi, latch *ssa.BasicBlock, start, boun
 			continue
 		}
 		latch = sq.Block().Preds[i]
-		for _, v := range []ssa.Value{sq, inc} {
-			for _, ref := range *v.Referrers() {
-				cmp, ok := ref.(*ssa.BinOp)
-				if !ok || cmp.Referrers() == nil {
-					continue
-				}
-				// only the loop test: an If in the loop header, or one that jumps back to it
-				loopTest := false
-				for _, r2 := range *cmp.Referrers() {
-					if iff, ok := r2.(*ssa.If); ok {
-						loopTest = loopTest || iff.Block() == sq.Block()
-						for _, succ := range iff.Block().Succs {
-							loopTest = loopTest || succ == sq.Block()
-						}
-					}
-				}
-				if !loopTest {
-					continue
-				}
-				// v < K, v != K, K > v  → K ;  v <= K, K >= v → K+1
-				kx, xc := constOf(cmp.X)
-				ky, yc := constOf(cmp.Y)
-				switch {
-				case cmp.X == v && yc && (cmp.Op == token.LSS || cmp.Op == token.NEQ):
-					bound = ky
-				case cmp.X == v && yc && cmp.Op == token.LEQ:
-					bound = ky + 1
-				case cmp.Y == v && xc && (cmp.Op == token.GTR || cmp.Op == token.NEQ):
-					bound = kx
-				case cmp.Y == v && xc && cmp.Op == token.GEQ:
-					bound = kx + 1
-				default:
-					continue
-				}
-				headerTest = v == ssa.Value(sq)
-			}
+		if n, iff := testOf(latch, inc); iff != nil && latch.Succs[0] == sq.Block() {
+			bound, test = n, iff
+		} else if n, iff := testOf(sq.Block(), sq); iff != nil {
+			bound, test, headerTest = n, iff, true
 		}
-		return sq, latch, start, bound, headerTest
+		return sq, latch, start, bound, headerTest, test
 	}
-	return nil, nil, 0, -1, false
+	return nil, nil, 0, -1, false, nil
 }
 
 func c12R4(c *Ctx, p *Prog, w map[string][]c12WSite, r *c12Reader) int {
@@ -1059,6 +1164,7 @@ func c12R4(c *Ctx, p *Prog, w map[string][]c12WSite, r *c12Reader) int {
 	}
 	// --- loop exit: next == start leaves, otherwise straight back to the header
 	var exit *ssa.If
+	var carried, carriedBody *ssa.BasicBlock
 	for _, ref := range *next.Referrers() {
 		cmp, ok := ref.(*ssa.BinOp)
 		if !ok || (cmp.Op != token.EQL && cmp.Op != token.NEQ) {
@@ -1081,12 +1187,39 @@ func c12R4(c *Ctx, p *Prog, w map[string][]c12WSite, r *c12Reader) int {
 					exit = iff
 				}
 			}
+			// condition-carried loop: for more := true; more; more = next != start { … }
+			// (or done := false; !done; done = next == start): a bool phi in the header,
+			// its value from the latch is the comparison, the first turn is unconditional
+			ph, isPhi := r2.(*ssa.Phi)
+			hb := occ.Block()
+			if !isPhi || ph.Block() != hb || len(ph.Edges) != 2 || ph.Edges[ni] != ssa.Value(cmp) || len(hb.Instrs) == 0 {
+				continue
+			}
+			iff, isIf := hb.Instrs[len(hb.Instrs)-1].(*ssa.If)
+			first, isC := ph.Edges[1-ni].(*ssa.Const)
+			if !isIf || iff.Cond != ssa.Value(ph) || !isC {
+				continue
+			}
+			k, _ := constOf(first)
+			body, leave := hb.Succs[0], hb.Succs[1]
+			if cmp.Op == token.EQL {
+				body, leave = leave, body
+			}
+			lt := hb.Preds[ni]
+			if (k != 0) == (cmp.Op == token.NEQ) && (body == lt || body.Dominates(lt)) && leave != hb && !body.Dominates(leave) && body != leave {
+				carried, carriedBody = lt, body
+			}
 		}
 	}
 	iters := int64(-1) // -1: the whole cycle of subsets; otherwise a constant number of steps
 	exitBlk := (*ssa.BasicBlock)(nil)
 	if exit != nil {
 		exitBlk = exit.Block()
+	} else if carried != nil {
+		if !(st.Block() == carriedBody || carriedBody.Dominates(st.Block())) {
+			return undec("the store is not in the body of the condition-carried enumeration loop")
+		}
+		exitBlk = carried
 	} else {
 		// counted enumeration: for i := K0; i < N; i++ { store; occ = next }
 		for _, instr := range occ.Block().Instrs {
@@ -1525,6 +1658,781 @@ func c12EndsMasked(c *Ctx, p *Prog, rule, key string, fn *ssa.Function, ld ssa.V
 	}
 }
 
+// ---------------------------------------------------------------- R7
+
+// C12.R7 — the fill of the in-between table. Decided for the recognised
+// coordinate-walk form only (policy as R4): the form is recognised
+// structurally, each part is its own obligation; any other way of filling the
+// table is undecided, a violation is reported only where a fully recognised
+// part is itself wrong. Nothing is executed or tabulated: the only enumeration
+// is over the checker's own definition of the recognised alignment predicates.
+
+// c12Key names a coordinate: the counter of a full-range loop over 0..7
+// (part 0), or the file ('f') / rank ('r') of the counter of a full-range loop
+// over the squares 0..63.
+type c12Key struct {
+	phi  *ssa.Phi
+	part byte
+}
+
+type c12Pt struct{ file, rank c12Key }
+
+func (k c12Key) String() string {
+	n := k.phi.Comment
+	if n == "" || strings.HasPrefix(n, "rangeint") {
+		n = k.phi.Name()
+	}
+	switch k.part {
+	case 'f':
+		return "file(" + n + ")"
+	case 'r':
+		return "rank(" + n + ")"
+	}
+	return n
+}
+
+// c12Counter: v is the counter of a loop 0..n-1 (n = 8 or 64).
+func c12Counter(v ssa.Value, n int64) *ssa.Phi {
+	if ph, _, start, bound, _ := c12CountLoop(v); ph != nil && start == 0 && bound == n {
+		return ph
+	}
+	return nil
+}
+
+// c12Coord resolves x to a coordinate key.
+func c12Coord(x c12V) (c12Key, bool) {
+	x = c12Res(x, true)
+	if ph := c12Counter(x.v, 8); ph != nil {
+		return c12Key{ph, 0}, true
+	}
+	b, ok := x.v.(*ssa.BinOp)
+	if !ok {
+		return c12Key{}, false
+	}
+	k, isC := constOf(c12Res(c12V{b.Y, x.env}, true).v)
+	if _, lit := c12Res(c12V{b.Y, x.env}, true).v.(*ssa.Const); !isC || !lit {
+		return c12Key{}, false
+	}
+	in := c12V{b.X, x.env}
+	if b.Op == token.AND && k == 7 { // (s>>3)&7 is s>>3 for a square
+		if key, ok := c12Coord(in); ok && key.part == 'r' {
+			return key, true
+		}
+	}
+	sq := c12Counter(c12Res(in, true).v, 64)
+	if sq == nil {
+		return c12Key{}, false
+	}
+	switch {
+	case b.Op == token.AND && k == 7, b.Op == token.REM && k == 8:
+		return c12Key{sq, 'f'}, true
+	case b.Op == token.SHR && k == 3, b.Op == token.QUO && k == 8:
+		return c12Key{sq, 'r'}, true
+	}
+	return c12Key{}, false
+}
+
+// c12SqParts: x is rank*8+file in one of the spellings (<<3 or *8, + or |);
+// returns the file and the rank operand.
+func c12SqParts(x c12V) (lo, hi c12V, ok bool) {
+	x = c12Res(x, true)
+	b, isB := x.v.(*ssa.BinOp)
+	if !isB || (b.Op != token.ADD && b.Op != token.OR) {
+		return lo, hi, false
+	}
+	times8 := func(v c12V) (c12V, bool) {
+		v = c12Res(v, true)
+		m, ok := v.v.(*ssa.BinOp)
+		if !ok {
+			return v, false
+		}
+		kx, xc := constOf(c12Res(c12V{m.X, v.env}, true).v)
+		ky, yc := constOf(c12Res(c12V{m.Y, v.env}, true).v)
+		switch {
+		case m.Op == token.SHL && yc && ky == 3, m.Op == token.MUL && yc && ky == 8:
+			return c12V{m.X, v.env}, true
+		case m.Op == token.MUL && xc && kx == 8:
+			return c12V{m.Y, v.env}, true
+		}
+		return v, false
+	}
+	if h, ok := times8(c12V{b.X, x.env}); ok {
+		return c12V{b.Y, x.env}, h, true
+	}
+	if h, ok := times8(c12V{b.Y, x.env}); ok {
+		return c12V{b.X, x.env}, h, true
+	}
+	return lo, hi, false
+}
+
+// c12SqExpr: x denotes the square of a point given by coordinate keys.
+func c12SqExpr(x c12V) (c12Pt, bool) {
+	if sq := c12Counter(c12Res(x, true).v, 64); sq != nil {
+		return c12Pt{c12Key{sq, 'f'}, c12Key{sq, 'r'}}, true
+	}
+	lo, hi, ok := c12SqParts(x)
+	if !ok {
+		return c12Pt{}, false
+	}
+	f, okf := c12Coord(lo)
+	r, okr := c12Coord(hi)
+	counters := f.part == 0 && r.part == 0 && f.phi != r.phi
+	ofSquare := f.part == 'f' && r.part == 'r' && f.phi == r.phi
+	if !okf || !okr || !(counters || ofSquare) {
+		return c12Pt{}, false
+	}
+	return c12Pt{f, r}, true
+}
+
+// c12BitOf: x is BitBoard(1) << inner.
+func c12BitOf(x c12V) (c12V, bool) {
+	x = c12Res(x, false)
+	if shl, ok := x.v.(*ssa.BinOp); ok && shl.Op == token.SHL {
+		if k, isC := constOf(c12Res(c12V{shl.X, x.env}, false).v); isC && k == 1 {
+			return c12V{shl.Y, x.env}, true
+		}
+	}
+	return x, false
+}
+
+func c12OrSplit(x c12V, out []c12V) []c12V {
+	x = c12Res(x, false)
+	if b, ok := x.v.(*ssa.BinOp); ok && b.Op == token.OR {
+		return c12OrSplit(c12V{b.Y, x.env}, c12OrSplit(c12V{b.X, x.env}, out))
+	}
+	return append(out, x)
+}
+
+// c12NatLoop: the blocks of the natural loop of the back edge latch -> hdr.
+func c12NatLoop(hdr, latch *ssa.BasicBlock) map[*ssa.BasicBlock]bool {
+	in := map[*ssa.BasicBlock]bool{hdr: true}
+	stack := []*ssa.BasicBlock{latch}
+	for len(stack) > 0 {
+		b := stack[len(stack)-1]
+		stack = stack[:len(stack)-1]
+		if in[b] {
+			continue
+		}
+		in[b] = true
+		stack = append(stack, b.Preds...)
+	}
+	return in
+}
+
+// c12OnlyTestExits: the counting loop of phi is left only through its own loop
+// test (no break, return, goto or labelled continue cuts its range short).
+func c12OnlyTestExits(phi *ssa.Phi, latch *ssa.BasicBlock) (bool, string) {
+	_, _, _, _, _, test := c12CountLoopTest(phi)
+	loop := c12NatLoop(phi.Block(), latch)
+	for b := range loop {
+		for _, s := range c12LiveSuccs(b) {
+			if loop[s] {
+				continue
+			}
+			if test == nil || b != test.Block() || s != b.Succs[1] {
+				return false, fmt.Sprintf("block %d leaves the loop of %s other than through the loop test (break, return, goto or labelled continue)", b.Index, c12Key{phi, 0})
+			}
+		}
+	}
+	return true, ""
+}
+
+// c12Geo evaluates the recognised alignment predicates by the checker's own definition.
+func c12Geo(fa, ra, fb, rb int) (atoms map[string]bool, aligned bool) {
+	abs := func(x int) int {
+		if x < 0 {
+			return -x
+		}
+		return x
+	}
+	df, dr := fa-fb, ra-rb
+	atoms = map[string]bool{"F": df == 0, "R": dr == 0, "D": abs(df) == abs(dr), "D1": df == dr, "D2": df == -dr}
+	return atoms, df == 0 || dr == 0 || abs(df) == abs(dr)
+}
+
+// c12Consistent: over all pairs of squares whose recognised predicates take the
+// decided values: is some pair aligned, is some pair unaligned (with witnesses).
+func c12Consistent(asg map[string]bool) (al, un string) {
+	for a := 0; a < 64; a++ {
+		for b := 0; b < 64; b++ {
+			atoms, aligned := c12Geo(a&7, a>>3, b&7, b>>3)
+			ok := true
+			for k, v := range asg {
+				ok = ok && atoms[k] == v
+			}
+			if !ok {
+				continue
+			}
+			// (a pair with no square strictly in between may rightly get the empty set: ends are disregarded)
+			far := (a&7)-(b&7) > 1 || (b&7)-(a&7) > 1 || (a>>3)-(b>>3) > 1 || (b>>3)-(a>>3) > 1
+			if aligned && far && al == "" {
+				al = c12Sq(a) + "-" + c12Sq(b)
+			} else if !aligned && un == "" {
+				un = c12Sq(a) + "-" + c12Sq(b)
+			}
+		}
+	}
+	return
+}
+
+func c12Asg(asg map[string]bool) string {
+	names := map[string]string{"F": "fileA==fileB", "R": "rankA==rankB", "D": "|dFile|==|dRank|", "D1": "dFile==dRank", "D2": "dFile==-dRank"}
+	var s []string
+	for _, k := range sortedKeys(asg) {
+		if asg[k] {
+			s = append(s, names[k])
+		} else {
+			s = append(s, "!("+names[k]+")")
+		}
+	}
+	return strings.Join(s, " && ")
+}
+
+func c12Signed(x c12V, name string) (c12V, bool) {
+	x = c12Res(x, false)
+	call, ok := x.v.(*ssa.Call)
+	if !ok || len(call.Call.Args) != 1 || objName(calleeObj(call)) != name {
+		return x, false
+	}
+	return c12V{call.Call.Args[0], x.env}, true
+}
+
+// c12Diff: x is u - v for two coordinates.
+func c12Diff(x c12V) (u, v c12Key, ok bool) {
+	_, l, r, isSub := c12Bin(x, token.SUB)
+	if !isSub {
+		return u, v, false
+	}
+	u, ok1 := c12Coord(l)
+	v, ok2 := c12Coord(r)
+	return u, v, ok1 && ok2
+}
+
+type c12IterPath struct {
+	stores  []*ssa.Store
+	asg     map[string]bool
+	unknown []string
+}
+
+// c12R7 is exported to other properties (C09 uses the table as a premise).
+func c12R7(c *Ctx, p *Prog) {
+	const rule = "C12.R7"
+	const gname = c12Pkg + ".InBetween"
+	n := 0
+	defer func() { c.Floor(rule, n, 1, "fill of attacks.InBetween analysed") }()
+	pk := p.SSAPkg(c12Pkg)
+	if pk == nil || !p.hasGlobal(gname) {
+		c.Anchor(rule, gname)
+		return
+	}
+	g := pk.Members["InBetween"].(*ssa.Global)
+	// --- the fill: all stores directly in one function, which never reads the table
+	var fn *ssa.Function
+	var stores []*ssa.Store
+	for _, s := range c12CollectWriters(p)[gname] {
+		st, isStore := s.In.(*ssa.Store)
+		if s.What != "" || s.Via != nil || !isStore || (fn != nil && fn != s.Fn) {
+			c.Undec(rule, "fill-site", s.Pos, "%s is written in more than one function, through a pointer or its address escapes (%s %s): only a direct fill in one function is understood", gname, fnName(s.Fn), s.What)
+			return
+		}
+		fn, stores = s.Fn, append(stores, st)
+	}
+	if fn == nil {
+		c.Anchor(rule, "a store to "+gname)
+		return
+	}
+	n = 1
+	key := fnName(fn)
+	reads := 0
+	for _, f := range withClosures(fn) {
+		allInstrs(f, func(in ssa.Instruction) {
+			if u, ok := in.(*ssa.UnOp); ok && u.Op == token.MUL {
+				if _, gl, _ := rootOfAddr(u.X); gl == gname {
+					reads++
+				}
+			}
+		})
+	}
+	if reads > 0 {
+		c.Undec(rule, key+"#fill-site", fn.Pos(), "%s reads %s while filling it (%d loads): what a cell receives depends on the order of the fill, which is not decided", key, gname, reads)
+		return
+	}
+	c.OkTrivial(rule, key+"#fill-site", fn.Pos(), "%s is the only writer of %s (%d direct stores) and does not read it", key, gname, len(stores))
+
+	// --- the two points: every store addresses InBetween[sq(A)][sq(B)]
+	var A, B c12Pt
+	for i, st := range stores {
+		var a, b c12Pt
+		ok := false
+		if in, isIA := st.Addr.(*ssa.IndexAddr); isIA {
+			if out, isOut := in.X.(*ssa.IndexAddr); isOut && out.X == ssa.Value(g) {
+				var ok1, ok2 bool
+				a, ok1 = c12SqExpr(c12Top(out.Index))
+				b, ok2 = c12SqExpr(c12Top(in.Index))
+				ok = ok1 && ok2
+			}
+		}
+		if !ok || (i > 0 && (a != A || b != B)) {
+			c.Undec(rule, key+"#domain", st.Pos(), "%s: a store does not address %s[rankA*8+fileA][rankB*8+fileB] for the coordinates (or squares) of full-range counting loops, or two stores address different cells: the coordinate-walk form is not recognised", key, gname)
+			return
+		}
+		A, B = a, b
+	}
+	// --- domain: four full-range loops over 0..7 (or two over the squares), properly nested, left only by their tests
+	loops := map[*ssa.Phi]*ssa.BasicBlock{}
+	for _, k := range []c12Key{A.file, A.rank, B.file, B.rank} {
+		_, latch, _, _, _ := c12CountLoop(k.phi)
+		loops[k.phi] = latch
+	}
+	coordForm := A.file.part == 0 && B.file.part == 0 && len(loops) == 4
+	squareForm := A.file.part == 'f' && B.file.part == 'f' && len(loops) == 2
+	if !coordForm && !squareForm {
+		c.Undec(rule, key+"#domain", fn.Pos(), "%s: the two points are not given by four distinct coordinate loops or two distinct square loops (A=(%s,%s), B=(%s,%s))", key, A.file, A.rank, B.file, B.rank)
+		return
+	}
+	var order []*ssa.Phi
+	for ph := range loops {
+		order = append(order, ph)
+	}
+	sort.Slice(order, func(i, j int) bool {
+		if order[i].Block() != order[j].Block() {
+			return order[i].Block().Dominates(order[j].Block())
+		}
+		return order[i].Pos() < order[j].Pos()
+	})
+	domainOK := true
+	headers := map[*ssa.BasicBlock]bool{}
+	for i, ph := range order {
+		headers[ph.Block()] = true
+		if ok, why := c12OnlyTestExits(ph, loops[ph]); !ok {
+			c.Undec(rule, key+"#domain", ph.Pos(), "%s: %s — some (A, B) pairs may never be reached", key, why)
+			domainOK = false
+		}
+		if i > 0 {
+			out := order[i-1]
+			if out.Block() == ph.Block() || !c12OnEveryPath(out.Block(), ph.Block(), loops[out]) || !c12NatLoop(out.Block(), loops[out])[ph.Block()] {
+				c.Undec(rule, key+"#domain", ph.Pos(), "%s: the loop of %s is not run in full on every iteration of the loop of %s", key, c12Key{ph, 0}, c12Key{out, 0})
+				domainOK = false
+			}
+		}
+	}
+	if !domainOK {
+		return
+	}
+	if coordForm {
+		c.Ok(rule, key+"#domain", fn.Pos(), "%s: four nested full-range loops over 0..7 (fileA=%s, rankA=%s, fileB=%s, rankB=%s), each left only by its loop test; every store addresses %s[rankA*8+fileA][rankB*8+fileB]", key, A.file, A.rank, B.file, B.rank, gname)
+	} else {
+		c.Ok(rule, key+"#domain", fn.Pos(), "%s: two nested full-range loops over the squares 0..63 (A=%s, B=%s), each left only by its loop test; every store addresses %s[A][B]", key, c12Key{A.file.phi, 0}, c12Key{B.file.phi, 0}, gname)
+	}
+
+	// --- one iteration of the innermost body, path by path
+	inner := order[len(order)-1]
+	hdr, latch := inner.Block(), loops[inner]
+	isCounter := func(v ssa.Value) bool {
+		v = stripConv(v)
+		if inc, ok := v.(*ssa.BinOp); ok && inc.Op == token.ADD {
+			v = stripConv(inc.X)
+		}
+		ph, ok := v.(*ssa.Phi)
+		return ok && loops[ph] != nil
+	}
+	isWalkPhi := func(v ssa.Value) bool {
+		ph, ok := c12Res(c12Top(v), true).v.(*ssa.Phi)
+		return ok && loops[ph] == nil && !headers[ph.Block()]
+	}
+	// classify: alignment atom, loop control / walk test (ignored), or unknown
+	classify := func(v ssa.Value) (atom string, neg bool, kind int) { // kind 0 atom, 1 ignore, 2 unknown
+		cmp, ok := v.(*ssa.BinOp)
+		if !ok {
+			return "", false, 2
+		}
+		_, xLit := stripConv(cmp.X).(*ssa.Const)
+		_, yLit := stripConv(cmp.Y).(*ssa.Const)
+		if isWalkPhi(cmp.X) || isWalkPhi(cmp.Y) || (isCounter(cmp.X) && yLit) || (isCounter(cmp.Y) && xLit) {
+			return "", false, 1 // the test of a counting loop or of the walk loop
+		}
+		if cmp.Op != token.EQL && cmp.Op != token.NEQ {
+			return "", false, 2
+		}
+		neg = cmp.Op == token.NEQ
+		x, y := c12Top(cmp.X), c12Top(cmp.Y)
+		if kx, ok1 := c12Coord(x); ok1 {
+			if ky, ok2 := c12Coord(y); ok2 {
+				switch {
+				case (kx == A.file && ky == B.file) || (kx == B.file && ky == A.file):
+					return "F", neg, 0
+				case (kx == A.rank && ky == B.rank) || (kx == B.rank && ky == A.rank):
+					return "R", neg, 0
+				}
+			}
+			return "", false, 2
+		}
+		sign := func(u, v c12Key) (file bool, s int, ok bool) {
+			switch {
+			case u == A.file && v == B.file:
+				return true, 1, true
+			case u == B.file && v == A.file:
+				return true, -1, true
+			case u == A.rank && v == B.rank:
+				return false, 1, true
+			case u == B.rank && v == A.rank:
+				return false, -1, true
+			}
+			return false, 0, false
+		}
+		// dFile == 0 / dRank == 0
+		for _, o := range [][2]c12V{{x, y}, {y, x}} {
+			if k, isC := constOf(c12Res(o[1], true).v); isC && k == 0 {
+				if _, lit := c12Res(o[1], true).v.(*ssa.Const); lit {
+					if u, v, ok := c12Diff(o[0]); ok {
+						if f, _, okS := sign(u, v); okS && f {
+							return "F", neg, 0
+						} else if okS {
+							return "R", neg, 0
+						}
+					}
+					return "", false, 2
+				}
+			}
+		}
+		if ax, okx := c12Signed(x, "chess.Abs"); okx {
+			if ay, oky := c12Signed(y, "chess.Abs"); oky {
+				u1, v1, ok1 := c12Diff(ax)
+				u2, v2, ok2 := c12Diff(ay)
+				if ok1 && ok2 {
+					f1, _, s1 := sign(u1, v1)
+					f2, _, s2 := sign(u2, v2)
+					if s1 && s2 && f1 != f2 {
+						return "D", neg, 0
+					}
+				}
+			}
+			return "", false, 2
+		}
+		u1, v1, ok1 := c12Diff(x)
+		u2, v2, ok2 := c12Diff(y)
+		if ok1 && ok2 {
+			f1, s1, k1 := sign(u1, v1)
+			f2, s2, k2 := sign(u2, v2)
+			if k1 && k2 && f1 != f2 {
+				if s1*s2 > 0 {
+					return "D1", neg, 0
+				}
+				return "D2", neg, 0
+			}
+		}
+		return "", false, 2
+	}
+	var paths []c12IterPath
+	complete := enumBlockPaths(hdr, func(from, to *ssa.BasicBlock) bool { return headers[to] }, 200000, func(bp *bpath) {
+		if bp.End != "arrive" || !headers[bp.Arrive] {
+			return // a turn of an inner loop, or the way out of the function
+		}
+		at, passes := bp.pos[latch]
+		if !passes {
+			return // the loop test failed before the body: not an iteration
+		}
+		ip := c12IterPath{asg: map[string]bool{}}
+		for _, pc := range bp.Conds {
+			if pc.At > at {
+				break
+			}
+			if cmp, ok := pc.V.(*ssa.BinOp); ok {
+				_, xl := cmp.X.(*ssa.Const)
+				_, yl := cmp.Y.(*ssa.Const)
+				if xl && yl { // range-over-int pre-test 0 < n: a dead edge is no path
+					if live := c12LiveSuccs(bp.Blocks[pc.At]); len(live) == 1 && (live[0] == bp.Blocks[pc.At].Succs[0]) != pc.True {
+						return
+					}
+					continue
+				}
+			}
+			atom, neg, kind := classify(pc.V)
+			switch kind {
+			case 0:
+				val := pc.True != neg
+				if old, seen := ip.asg[atom]; seen && old != val {
+					return // contradictory: infeasible
+				}
+				ip.asg[atom] = val
+			case 2:
+				ip.unknown = append(ip.unknown, fmt.Sprintf("%s at %s", pc.V.String(), p.Rel(pc.V.Pos())))
+			}
+		}
+		bp.instrsOnPath(nil, func(in ssa.Instruction, i int) {
+			if st, ok := in.(*ssa.Store); ok && i <= at {
+				if _, gl, _ := rootOfAddr(st.Addr); gl == gname {
+					ip.stores = append(ip.stores, st)
+				}
+			}
+		})
+		paths = append(paths, ip)
+	})
+	if !complete || len(paths) == 0 {
+		c.Undec(rule, key+"#coverage", fn.Pos(), "%s: the paths through one iteration of the innermost loop could not be enumerated (%d found)", key, len(paths))
+		return
+	}
+	// coverage: nothing but the recognised alignment predicates decides what an iteration stores
+	covOK := true
+	for _, ip := range paths {
+		if len(ip.unknown) > 0 || len(ip.stores) > 1 {
+			what := "no store"
+			pos := fn.Pos()
+			if len(ip.stores) > 0 {
+				what, pos = fmt.Sprintf("%d store(s)", len(ip.stores)), ip.stores[0].Pos()
+			}
+			c.Undec(rule, key+"#coverage", pos, "%s: an iteration with %s is governed by condition(s) other than fileA==fileB, rankA==rankB, |dFile|==|dRank| (%s) or stores twice: which pairs are skipped or filled differently is not decided", key, what, strings.Join(ip.unknown, "; "))
+			covOK = false
+			break
+		}
+	}
+	if !covOK {
+		return
+	}
+	c.Ok(rule, key+"#coverage", fn.Pos(), "%s: each of the %d paths through one iteration stores at most once to %s[A][B] and is selected by the recognised alignment predicates only", key, len(paths), gname)
+
+	// alignment: non-zero exactly for aligned pairs
+	segs := map[*ssa.Store]bool{}
+	alignOK, feasible := true, 0
+	said := map[string]bool{}
+	for _, ip := range paths {
+		al, un := c12Consistent(ip.asg)
+		if al == "" && un == "" {
+			continue // no pair takes this path
+		}
+		feasible++
+		nonzero := false
+		pos := fn.Pos()
+		if len(ip.stores) == 1 {
+			pos = ip.stores[0].Pos()
+			if k, isC := constOf(ip.stores[0].Val); !isC || k != 0 {
+				nonzero = true
+				segs[ip.stores[0]] = true
+			}
+		}
+		if tag := fmt.Sprint(nonzero, c12Asg(ip.asg)); said[tag] {
+			continue // the same case reached through another loop exit
+		} else {
+			said[tag] = true
+		}
+		switch {
+		case nonzero && un != "":
+			c.Fail(rule, key+"#alignment", pos, "%s: under %s a non-empty set is stored although unaligned pairs take this path, e.g. %s", key, c12Asg(ip.asg), un)
+			alignOK = false
+		case !nonzero && al != "":
+			c.Fail(rule, key+"#alignment", pos, "%s: under %s the cell is left/set empty although aligned pairs take this path, e.g. %s: their in-between squares are lost", key, c12Asg(ip.asg), al)
+			alignOK = false
+		}
+	}
+	if alignOK {
+		c.Ok(rule, key+"#alignment", fn.Pos(), "%s: over %d feasible paths the non-empty store executes exactly when fileA==fileB || rankA==rankB || |dFile|==|dRank|, the other pairs get 0 (or keep the zero value)", key, feasible)
+	}
+
+	// walk: what the non-empty store holds
+	if len(segs) == 0 {
+		c.Undec(rule, key+"#walk", fn.Pos(), "%s: no store of a non-empty set found", key)
+		return
+	}
+	for _, st := range stores {
+		if !segs[st] {
+			continue
+		}
+		verdict, msg := c12MatchWalk(st, A, B)
+		switch verdict {
+		case 0:
+			c.Ok(rule, key+"#walk", st.Pos(), "%s: %s", key, msg)
+		case 1:
+			c.Undec(rule, key+"#walk", st.Pos(), "%s: %s", key, msg)
+		default:
+			c.Fail(rule, key+"#walk", st.Pos(), "%s: %s", key, msg)
+		}
+	}
+}
+
+// c12MatchWalk recognises the stored value as the accumulation of the squares
+// visited walking from A towards B, together with B. verdict: 0 ok, 1 not
+// recognised (undecided), 2 recognised and wrong.
+func c12MatchWalk(st *ssa.Store, A, B c12Pt) (verdict int, msg string) {
+	var acc *ssa.Phi
+	bitOf := map[c12Pt]bool{} // end squares or-ed in besides the walk
+	for _, t := range c12OrSplit(c12Top(st.Val), nil) {
+		if in, ok := c12BitOf(t); ok {
+			pt, isPt := c12SqExpr(in)
+			if !isPt || (pt != A && pt != B) {
+				return 1, "the stored set contains a bit that is neither of the two end squares: not the recognised walk"
+			}
+			bitOf[pt] = true
+			continue
+		}
+		ph, ok := t.v.(*ssa.Phi)
+		if !ok || acc != nil {
+			return 1, fmt.Sprintf("the stored value is not (accumulator of a walk loop) | bit(B): term %s", t.v)
+		}
+		acc = ph
+	}
+	if acc == nil || len(acc.Edges) != 2 {
+		return 1, "the stored value has no accumulator carried round a walk loop"
+	}
+	W := acc.Block()
+	// the accumulator: init 0 or bit(B); each turn ors bit(rank'*8+file') of the current walk coordinates
+	li := -1
+	var bitIn c12V
+	for i, e := range acc.Edges {
+		terms := c12OrSplit(c12Top(e), nil)
+		if len(terms) != 2 {
+			continue
+		}
+		for k := range terms {
+			if terms[k].v == ssa.Value(acc) {
+				if in, ok := c12BitOf(terms[1-k]); ok {
+					li, bitIn = i, in
+				}
+			}
+		}
+	}
+	if li < 0 {
+		return 1, "the accumulator is not advanced by result |= 1 << (rank*8+file)"
+	}
+	init := c12Res(c12Top(acc.Edges[1-li]), false)
+	if k, isC := constOf(init.v); !isC || k != 0 {
+		in, ok := c12BitOf(init)
+		pt, isPt := c12SqExpr(in)
+		if !ok || !isPt || (pt != A && pt != B) {
+			return 1, "the accumulator starts neither empty nor with the bit of an end square"
+		}
+		bitOf[pt] = true
+	}
+	lo, hi, ok := c12SqParts(bitIn)
+	if !ok {
+		return 1, "the walk steps a square index (1 << sq), not (file, rank) coordinates: a step that wraps round the board edge is not excluded"
+	}
+	fW, ok1 := c12Res(lo, true).v.(*ssa.Phi)
+	rW, ok2 := c12Res(hi, true).v.(*ssa.Phi)
+	if !ok1 || !ok2 || fW.Block() != W || rW.Block() != W || fW == rW || len(fW.Edges) != 2 || len(rW.Edges) != 2 {
+		return 1, "the visited square is not built from two coordinates carried round the walk loop"
+	}
+	// orientation: the walk may run from A to B or from B to A; it is judged from the end it starts at
+	if s0, okS := c12Coord(c12Top(fW.Edges[1-li])); okS && (s0 == B.file || s0 == B.rank) {
+		A, B = B, A
+	}
+	latch := W.Preds[li]
+	loop := c12NatLoop(W, latch)
+	if loop[st.Block()] {
+		return 1, "the store is inside the walk loop"
+	}
+	// start and step of each coordinate
+	check := func(ph *ssa.Phi, a, b c12Key, what string) (int, string) {
+		start, okS := c12Coord(c12Top(ph.Edges[1-li]))
+		if !okS || start != a {
+			return 1, fmt.Sprintf("the %s of the walk does not start at the %s of the same end square as the other coordinate", what, what)
+		}
+		_, l, r, isAdd := c12Bin(c12Top(ph.Edges[li]), token.ADD)
+		if !isAdd {
+			return 1, fmt.Sprintf("the %s of the walk is not advanced by an addition", what)
+		}
+		step := r
+		if c12Res(r, true).v == ssa.Value(ph) {
+			step = l
+		} else if c12Res(l, true).v != ssa.Value(ph) {
+			return 1, fmt.Sprintf("the %s of the walk is not advanced by %s += step", what, what)
+		}
+		arg, isSig := c12Signed(c12Res(step, true), "chess.Signum")
+		if !isSig {
+			return 1, fmt.Sprintf("the %s step is not chess.Signum(%sB - %sA)", what, what, what)
+		}
+		u, v, isDiff := c12Diff(arg)
+		switch {
+		case isDiff && u == b && v == a:
+			return 0, ""
+		case isDiff && u == a && v == b:
+			return 2, fmt.Sprintf("the %s step is the sign of (start - end): the walk moves away from the end square it is compared with (%s %s)", what, a, b)
+		case isDiff && (u == A.file || u == A.rank || u == B.file || u == B.rank) && (v == A.file || v == A.rank || v == B.file || v == B.rank):
+			return 2, fmt.Sprintf("the %s step is the sign of %s - %s, not of %sB - %sA", what, u, v, what, what)
+		}
+		return 1, fmt.Sprintf("the %s step is not chess.Signum(%sB - %sA)", what, what, what)
+	}
+	transposed := false
+	if s, okS := c12Coord(c12Top(fW.Edges[1-li])); okS && (s == A.rank || s == B.rank) {
+		if s2, ok2 := c12Coord(c12Top(rW.Edges[1-li])); ok2 && (s2 == A.file || s2 == B.file) {
+			transposed = true
+		}
+	}
+	if transposed {
+		return 2, "the visited square is built as file*8+rank: the collected squares are mirrored on the a1-h8 diagonal"
+	}
+	if v, m := check(fW, A.file, B.file, "file"); v != 0 {
+		return v, m
+	}
+	if v, m := check(rW, A.rank, B.rank, "rank"); v != 0 {
+		return v, m
+	}
+	// the loop test: go on exactly while (file', rank') != (fileB, rankB)
+	verdict, msg = 0, ""
+	turns, leaves := 0, 0
+	complete := enumBlockPaths(W, func(from, to *ssa.BasicBlock) bool { return !loop[to] }, 20000, func(bp *bpath) {
+		if verdict != 0 {
+			return
+		}
+		if bp.End != "arrive" {
+			verdict, msg = 1, "the walk loop contains a return"
+			return
+		}
+		asg := map[string]bool{}
+		for _, pc := range bp.Conds {
+			cmp, ok := pc.V.(*ssa.BinOp)
+			if !ok || (cmp.Op != token.EQL && cmp.Op != token.NEQ) {
+				verdict, msg = 1, fmt.Sprintf("the walk loop is governed by a condition that is not a comparison of the walk coordinates with B: %s", pc.V)
+				return
+			}
+			x, y := c12Res(c12Top(cmp.X), true).v, c12Res(c12Top(cmp.Y), true).v
+			if y == ssa.Value(fW) || y == ssa.Value(rW) {
+				x, y = y, x
+			}
+			k, isK := c12Coord(c12Top(y))
+			atom := ""
+			switch {
+			case isK && x == ssa.Value(fW) && k == B.file:
+				atom = "WF"
+			case isK && x == ssa.Value(rW) && k == B.rank:
+				atom = "WR"
+			default:
+				verdict, msg = 1, fmt.Sprintf("the walk loop is governed by a condition that is not file'==fileB / rank'==rankB: %s", pc.V)
+				return
+			}
+			val := pc.True != (cmp.Op == token.NEQ)
+			if old, seen := asg[atom]; seen && old != val {
+				return
+			}
+			asg[atom] = val
+		}
+		atB := asg["WF"] && asg["WR"]
+		notAtB := (c12Has(asg, "WF") && !asg["WF"]) || (c12Has(asg, "WR") && !asg["WR"])
+		if bp.Arrive == W {
+			turns++
+			if !notAtB && verdict == 0 {
+				verdict, msg = 2, "the walk loop takes another turn on a path that does not establish (file', rank') != (fileB, rankB): it can step past B"
+			}
+		} else {
+			leaves++
+			if !atB && verdict == 0 {
+				verdict, msg = 2, "the walk loop is left on a path that does not establish file'==fileB && rank'==rankB: for a pair that differs in one coordinate only (or in both) it stops before reaching B and in-between squares are lost"
+			}
+		}
+	})
+	if verdict != 0 {
+		return verdict, msg
+	}
+	if !complete || turns == 0 || leaves == 0 {
+		return 1, "the paths of the walk loop could not be enumerated"
+	}
+	if !bitOf[B] {
+		return 1, fmt.Sprintf("the stored set is the walk from one end up to but without the other: the bit of the end square (%s, %s) is not or-ed in — not the recognised closed segment (harmless only for a consumer that masks both ends, see R5)", B.file, B.rank)
+	}
+	return 0, fmt.Sprintf("the stored set is the accumulation of 1<<(rank'*8+file') over the walk (file', rank') starting at one end, stepping by the signs of the coordinate differences towards the other end exactly while it is not reached, together with the bit of that end: the closed segment between A and B")
+}
+
+func c12Has(m map[string]bool, k string) bool { _, ok := m[k]; return ok }
+
 // ---------------------------------------------------------------- mutants
 
 func init() {
@@ -1591,6 +2499,55 @@ func init() {
 			Old:    "func initBishopMagic() {\n\tfor sq := range Squares {\n\t\tmask := bishopMasks[sq]\n\t\tmagic := bishopMagics[sq]\n\t\tshift := bishopShifts[sq]\n\t\tocc := mask\n\n\t\tfor {\n\t\t\tattacks := calcBishopAttacks(sq, occ)\n\t\t\tbishopAttacks[sq][(occ*magic)>>(64-shift)] = attacks\n\t\t\tocc = (occ - mask) & mask\n\n\t\t\tif occ == mask {\n\n\t\t\t\tbreak\n\t\t\t}\n\t\t}\n\t}\n}\n\nfunc initRookMagic() {\n\tfor sq := range Squares {\n\t\tmask := rookMasks[sq]\n\t\tmagic := rookMagics[sq]\n\t\tshift := rookShifts[sq]\n\t\tocc := mask\n\n\t\tfor {\n\t\t\tattacks := calcRookAttacks(sq, occ)\n\t\t\trookAttacks[sq][(occ*magic)>>(64-shift)] = attacks\n\t\t\tocc = (occ - mask) & mask\n\n\t\t\tif occ == mask {\n\n\t\t\t\tbreak\n\t\t\t}\n\t\t}\n\t}\n}\n\n",
 			New:    "func fillMagic(table []BitBoard, sq Square, mask, magic BitBoard, shift byte, calc func(Square, BitBoard) BitBoard) {\n\tocc := mask\n\n\tfor {\n\t\ttable[(occ*magic)>>(64-shift)] = calc(sq, occ)\n\t\tocc = (occ - mask) & mask\n\n\t\tif occ == mask {\n\t\t\tbreak\n\t\t}\n\t}\n}\n\nfunc initBishopMagic() {\n\tfor sq := range Squares {\n\t\tfillMagic(bishopAttacks[sq][:], sq, bishopMasks[sq], bishopMagics[sq], bishopShifts[sq], calcRookAttacks)\n\t}\n}\n\nfunc initRookMagic() {\n\tfor sq := range Squares {\n\t\tfillMagic(rookAttacks[sq][:], sq, rookMasks[sq], rookMagics[sq], rookShifts[sq], calcRookAttacks)\n\t}\n}\n\n",
 			Expect: "C12.R4/attacks.BishopMoves#fill-value"},
+		Mutant{Name: "C12.R4-struct-parameterised-fill-gets-other-magics", Prop: "C12", File: tab,
+			Old:    "func initBishopMagic() {\n\tfor sq := range Squares {\n\t\tmask := bishopMasks[sq]\n\t\tmagic := bishopMagics[sq]\n\t\tshift := bishopShifts[sq]\n\t\tocc := mask\n\n\t\tfor {\n\t\t\tattacks := calcBishopAttacks(sq, occ)\n\t\t\tbishopAttacks[sq][(occ*magic)>>(64-shift)] = attacks\n\t\t\tocc = (occ - mask) & mask\n\n\t\t\tif occ == mask {\n\n\t\t\t\tbreak\n\t\t\t}\n\t\t}\n\t}\n}\n\nfunc initRookMagic() {\n\tfor sq := range Squares {\n\t\tmask := rookMasks[sq]\n\t\tmagic := rookMagics[sq]\n\t\tshift := rookShifts[sq]\n\t\tocc := mask\n\n\t\tfor {\n\t\t\tattacks := calcRookAttacks(sq, occ)\n\t\t\trookAttacks[sq][(occ*magic)>>(64-shift)] = attacks\n\t\t\tocc = (occ - mask) & mask\n\n\t\t\tif occ == mask {\n\n\t\t\t\tbreak\n\t\t\t}\n\t\t}\n\t}\n}\n\n",
+			New:    "// magicEntry describes the magic hashing of a single square of a sliding piece.\ntype magicEntry struct {\n\tmask  BitBoard\n\tmagic BitBoard\n\tshift byte\n}\n\n// fillMagic populates table, the attack table of a slider on sq, by\n// enumerating all subsets of the relevancy mask, the full mask first, then the\n// empty set and upwards.\nfunc fillMagic(sq Square, e magicEntry, table []BitBoard, calc func(Square, BitBoard) BitBoard) {\n\tocc := e.mask\n\n\tfor more := true; more; more = occ != e.mask {\n\t\ttable[(occ*e.magic)>>(64-e.shift)] = calc(sq, occ)\n\t\tocc = (occ - e.mask) & e.mask\n\t}\n}\n\nfunc initBishopMagic() {\n\tfor sq := range Squares {\n\t\te := magicEntry{mask: bishopMasks[sq], magic: rookMagics[sq], shift: bishopShifts[sq]}\n\t\tfillMagic(sq, e, bishopAttacks[sq][:], calcBishopAttacks)\n\t}\n}\n\nfunc initRookMagic() {\n\tfor sq := range Squares {\n\t\te := magicEntry{mask: rookMasks[sq], magic: rookMagics[sq], shift: rookShifts[sq]}\n\t\tfillMagic(sq, e, rookAttacks[sq][:], calcRookAttacks)\n\t}\n}\n\n",
+			Expect: "C12.R4/attacks.BishopMoves#roundtrip"},
+		// R7
+		Mutant{Name: "C12.R7-distance-below-3-skipped", Prop: "C12", File: tab, Quick: true,
+			Old:    "\t\t\t\t\tif (fileA == fileB) || (rankA == rankB) || (Abs(fileA-fileB) == Abs(rankA-rankB)) {\n",
+			New:    "\t\t\t\t\tif max(Abs(fileA-fileB), Abs(rankA-rankB)) < 3 {\n\t\t\t\t\t\tcontinue\n\t\t\t\t\t}\n\n\t\t\t\t\tif (fileA == fileB) || (rankA == rankB) || (Abs(fileA-fileB) == Abs(rankA-rankB)) {\n",
+			Expect: "C12.R7/attacks.initInBetween#coverage"},
+		Mutant{Name: "C12.R7-symmetric-half-copied", Prop: "C12", File: tab,
+			Old:    "\t\t\t\t\tif (fileA == fileB) || (rankA == rankB) || (Abs(fileA-fileB) == Abs(rankA-rankB)) {\n",
+			New:    "\t\t\t\t\tif rankB > rankA {\n\t\t\t\t\t\tInBetween[(rankA<<3)+fileA][(rankB<<3)+fileB] = InBetween[(rankB<<3)+fileB][(rankA<<3)+fileA]\n\t\t\t\t\t\tcontinue\n\t\t\t\t\t}\n\n\t\t\t\t\tif (fileA == fileB) || (rankA == rankB) || (Abs(fileA-fileB) == Abs(rankA-rankB)) {\n",
+			Expect: "C12.R7/attacks.initInBetween#fill-site"},
+		Mutant{Name: "C12.R7-step-sign-reversed", Prop: "C12", File: tab, Quick: true,
+			Old:    "fileD := Signum(fileB - fileA)",
+			New:    "fileD := Signum(fileA - fileB)",
+			Expect: "C12.R7/attacks.initInBetween#walk"},
+		Mutant{Name: "C12.R7-walk-starts-at-B", Prop: "C12", File: tab,
+			Old:    "iterF := fileA\n\t\t\t\t\t\titerR := rankA\n",
+			New:    "iterF := fileB\n\t\t\t\t\t\titerR := rankB\n",
+			Expect: "C12.R7/attacks.initInBetween#walk"},
+		Mutant{Name: "C12.R7-end-bit-dropped", Prop: "C12", File: tab,
+			Old:    "\t\t\t\t\t\t\tresult | (BitBoard(1) << ((rankB << 3) + fileB))\n",
+			New:    "\t\t\t\t\t\t\tresult\n",
+			Expect: "C12.R7/attacks.initInBetween#walk"},
+		Mutant{Name: "C12.R7-alignment-by-index-difference", Prop: "C12", File: tab,
+			Old:    "(Abs(fileA-fileB) == Abs(rankA-rankB)) {",
+			New:    "(((rankB<<3)+fileB-(rankA<<3)-fileA)%9 == 0) || (((rankB<<3)+fileB-(rankA<<3)-fileA)%7 == 0) {",
+			Expect: "C12.R7/attacks.initInBetween#coverage"},
+		Mutant{Name: "C12.R7-diagonals-not-aligned", Prop: "C12", File: tab,
+			Old:    "(fileA == fileB) || (rankA == rankB) || (Abs(fileA-fileB) == Abs(rankA-rankB)) {",
+			New:    "(fileA == fileB) || (rankA == rankB) {",
+			Expect: "C12.R7/attacks.initInBetween#alignment"},
+		Mutant{Name: "C12.R7-only-one-diagonal-direction", Prop: "C12", File: tab,
+			Old:    "(Abs(fileA-fileB) == Abs(rankA-rankB)) {",
+			New:    "(fileA-fileB == rankA-rankB) {",
+			Expect: "C12.R7/attacks.initInBetween#alignment"},
+		Mutant{Name: "C12.R7-walk-stops-when-one-coordinate-matches", Prop: "C12", File: tab,
+			Old:    "for iterF != fileB || iterR != rankB {",
+			New:    "for iterF != fileB && iterR != rankB {",
+			Expect: "C12.R7/attacks.initInBetween#walk"},
+		Mutant{Name: "C12.R7-last-rank-not-visited", Prop: "C12", File: tab,
+			Old:    "for rankB = range 8 {",
+			New:    "for rankB = range 7 {",
+			Expect: "C12.R7/attacks.initInBetween#domain"},
+		Mutant{Name: "C12.R7-transposed-bit", Prop: "C12", File: tab,
+			Old:    "result |= (BitBoard(1) << ((iterR << 3) + iterF))",
+			New:    "result |= (BitBoard(1) << ((iterF << 3) + iterR))",
+			Expect: "C12.R7/attacks.initInBetween#walk"},
 		// R5
 		Mutant{Name: "C12.R5-attacker-square-not-masked", Prop: "C12", File: brd, Quick: true,
 			Old: "blocked := attacks.InBetween[kingSq][aSq] & ^(king | attacker)", New: "blocked := attacks.InBetween[kingSq][aSq] & ^king",
